@@ -198,6 +198,21 @@ def _clauses(cc):
         if r1 != r2:
             what = "columns" if [c[0] for c in r1] != [c[0] for c in r2] else ("dtypes" if [c[1] for c in r1] != [c[1] for c in r2] else "values")
             out.append(("parsed_output_equal", what, f"pandas={r1} polars={r2}"))
+    if pd_["outcome"] == "SchemaErrors":
+        # history of length 2 on the SAME schema objects: after the rejected table, a table that conforms once parsed (numeric
+        # strings where the schema coerces).  A backend that leaves something behind in its schema after a failure now disagrees.
+        t2 = E.BASES["frame"][1]
+        if spec.get("coerce") or any(c.get("coerce") for c in spec["cols"]):
+            t2c = E.apply_data_edit(t2, ["coldtype", "a", "numstr"])
+            t2 = t2c if t2c is not None else t2
+        if not _int_null_coercion(spec, t2):
+            pd2 = O.validate_pandas(spec, t2, lazy=True, schema=pd_["_schema"])
+            pl2 = O.validate_polars(spec, t2, lazy=True, schema=pl_["_schema"])
+            if "leak" not in (pd2["outcome"], pl2["outcome"]) and pd2["outcome"] != pl2["outcome"]:
+                fresh = O.validate_polars(spec, t2, lazy=True)["outcome"], O.validate_pandas(spec, t2, lazy=True)["outcome"]
+                if fresh[0] == fresh[1]:   # the two backends agree on t2 with fresh schemas: the disagreement is history-made
+                    out.append(("verdict_equal_after_failure", f"pandas={pd2['outcome']}|polars={pl2['outcome']}",
+                                f"second validate on the same schema objects, table={t2['cols'][0]}"))
     return out, label
 
 
